@@ -135,6 +135,8 @@ def _apply_filters(r, filters):
     if kind == "regex":
         assert len(names) == 1
         return r.have_name_matching(names[0])
+    if kind == "partial":
+        return r.have_name_containing(arg)
     raise ValueError(kind)
 
 
